@@ -1,6 +1,7 @@
 /* C09: interval algebra under the PER/OER-visible constraint computation (libasn1fix/asn1fix_crange.c) */
 #include <vf.h>
 #include "asn1fix_internal.h"
+_Static_assert(sizeof(asn1c_integer_t) == 16, "the harness must see the 128-bit asn1c_integer_t of the real build (HAVE_CONFIG_H)");
 #include "asn1fix_constraint.h"
 #include "asn1fix_crange.h"
 #include "asn1fix_crange.c"
@@ -90,6 +91,50 @@ void h_range_intersection(void) {
 	__CPROVER_assert(cnt == ((in_range(&a0, x) && in_range(&rb, x)) ? 1 : 0), "C09: an integer is in (exactly one piece of) the result iff it is in both operands");
 	__CPROVER_assert((ra->empty_constraint != 0) == (_range_overlap(&a0, &rb) == 0), "C09: empty result flagged exactly for disjoint operands");
 	asn1constraint_range_free(ra);
+}
+
+/* _range_union / _range_canonicalize over a parent with NP simple pieces: same set of integers, pieces sorted, disjoint, not adjacent */
+#ifndef VF_NP
+#define VF_NP 2
+#endif
+void h_range_union(void) {
+	RANGE(p0); RANGE(p1);
+#if VF_NP >= 3
+	RANGE(p2);
+#endif
+	VF_SCALAR(I, x);
+	asn1cnst_range_t *parent = _range_new();
+	asn1cnst_range_t *e0 = _range_new(), *e1 = _range_new();
+	__CPROVER_assume(parent && e0 && e1);
+	e0->left = p0.left; e0->right = p0.right; e1->left = p1.left; e1->right = p1.right;
+	_range_insert(parent, e0); _range_insert(parent, e1);
+	int member = in_range(&p0, x) || in_range(&p1, x);
+#if VF_NP >= 3
+	asn1cnst_range_t *e2 = _range_new(); __CPROVER_assume(e2 != 0);
+	e2->left = p2.left; e2->right = p2.right; _range_insert(parent, e2);
+	member = member || in_range(&p2, x);
+#endif
+	/* adjacency arithmetic of the function: keep values away from the 128-bit limits */
+#define SMALL(v) ((v) > -((I)1 << 100) && (v) < ((I)1 << 100))
+	__CPROVER_assume(SMALL(p0_l_v) && SMALL(p0_r_v) && SMALL(p1_l_v) && SMALL(p1_r_v));
+#if VF_NP >= 3
+	__CPROVER_assume(SMALL(p2_l_v) && SMALL(p2_r_v));
+#endif
+	int r = _range_union(parent);
+	VF_CANARY();
+	__CPROVER_assert(r == 0 && parent->el_count >= 1 && parent->el_count <= VF_NP, "C09: union keeps between one and all pieces");
+	int i, cnt = 0;
+	for(i = 0; i < VF_NP; i++) if(i < parent->el_count) {
+		const asn1cnst_range_t *q = parent->elements[i];
+		__CPROVER_assert(wf(q), "C09: every piece stays a well-formed interval");
+		if(in_range(q, x)) cnt++;
+		if(i + 1 < parent->el_count) {
+			const asn1cnst_range_t *n = parent->elements[i + 1];
+			__CPROVER_assert(q->right.type == ARE_VALUE && n->left.type == ARE_VALUE && n->left.value - q->right.value > 1, "C09: pieces are sorted, disjoint and not adjacent after the union");
+		}
+	}
+	__CPROVER_assert(cnt == (member ? 1 : 0), "C09: the union denotes exactly the integers of its operands (each in exactly one piece)");
+	asn1constraint_range_free(parent);
 }
 
 VF_NATIVE_MAIN
